@@ -178,7 +178,7 @@ def digest(b: bytes) -> str:
 def file_state(path, drop=()):
     """(ordered column (name, digest) list, ordered header (key, repr(value)) list) of a FITS table file"""
     from astropy.table import Table
-    t = Table.read(path)
+    t = Table.read(path, format="fits")
     cols = [(n, digest(col_bits(t, n))) for n in t.colnames]
     meta = [(k, repr(v)) for k, v in t.meta.items() if k not in drop]
     return cols, meta
@@ -230,7 +230,7 @@ def spec_key(spec):
 
 def complete_run(ctx, spec, workdir):
     """one complete run; returns (snapshot states, final file state, boundaries) or None"""
-    path = os.path.join(workdir, "out.fits")
+    path = os.path.join(workdir, spec.get("outname", "out.fits"))
     snapdir = os.path.join(workdir, "snaps")
     os.makedirs(snapdir, exist_ok=True)
     target = spec["mode"] == "Target"
@@ -266,7 +266,14 @@ def complete_run(ctx, spec, workdir):
             for site in sites:
                 if site[4] == 1:
                     st.enter_context(inject(site, lambda nm=site[0]: checkpoint(nm)))
-            sim = run_compute(spec, path)
+            try:
+                sim = run_compute(spec, path)
+            except Exception as ex:  # noqa
+                left = os.path.basename(path) if os.path.exists(path) else None
+                ctx.violation("compute", "raises-although-no-stage-failed",
+                              f"compute(write_stages=True, output_file={os.path.basename(path)!r}) raises {type(ex).__name__}: {str(ex)[:120]} although no stage failed",
+                              {"config": key, "seed": spec["seed"], "output_file_name": os.path.basename(path), "file_left": left})
+                return None
             seen["tab"] = sim
             checkpoint("return")
     finally:
@@ -379,7 +386,7 @@ def fault_run(ctx, spec, base, site, workdir):
     key = spec_key(spec)
     d = os.path.join(workdir, "fault_" + name)
     os.makedirs(d, exist_ok=True)
-    path = os.path.join(d, "out.fits")
+    path = os.path.join(d, spec.get("outname", "out.fits"))
 
     def boom():
         raise InjectedFault(name)
@@ -454,7 +461,7 @@ def death_run(ctx, spec, base, site, workdir):
     key = spec_key(spec)
     d = os.path.join(workdir, "death_" + name)
     os.makedirs(d, exist_ok=True)
-    path = os.path.join(d, "out.fits")
+    path = os.path.join(d, spec.get("outname", "out.fits"))
     arg = {"site": list(site), "path": path, "dir": d, "spec": spec}
     p = subprocess.run([sys.executable, "-c", CHILD, os.path.abspath(__file__), json.dumps(arg)], capture_output=True, text=True,
                        env={**os.environ, "C17_CHILD": "1",
@@ -473,7 +480,7 @@ def writes_off(ctx, spec, workdir):
     key = spec_key(spec)
     d = os.path.join(workdir, "off")
     os.makedirs(d, exist_ok=True)
-    path = os.path.join(d, "out.fits")
+    path = os.path.join(d, spec.get("outname", "out.fits"))
     calls = []
     orig = Table.__dict__["write"]
 
@@ -518,6 +525,48 @@ def writes_off(ctx, spec, workdir):
         ctx.disagree("C17.model-writes-off", {"model": o})
 
 
+def cli_fault_runs(ctx, workdir):
+    """the command line with intermediate writing: when a stage raises, the file left at the output path is the last prefix (as with
+    the library call) — not removed, not replaced"""
+    import dask
+    import nuspacesim.config as cfgmod
+    from astropy.table import Table
+    from click.testing import CliRunner
+    from nuspacesim.apps.cli import cli
+    d = os.path.join(workdir, "cli")
+    os.makedirs(d, exist_ok=True)
+    spec = {"mode": "Diffuse", "optical": True, "radio": True, "spectrum": "mono", "n": 80, "seed": 11, "loge": 9.0}
+    toml = os.path.join(d, "c.toml")
+    cfgmod.create_toml(toml, make_config(spec))
+    sites, _ = stage_sites(False, True, True)
+    for site in [s_ for s_ in sites if s_[0] in ("taus", "calculate_snr")]:
+        for extra in ([], ["-n"]) if site[0] == "calculate_snr" else ([],):
+            out = os.path.join(d, f"cli_{site[0]}{len(extra)}.fits")
+            if os.path.exists(out):
+                os.remove(out)
+
+            def boom(nm=site[0]):
+                raise InjectedFault(nm)
+            np.random.seed(spec["seed"])
+            with inject(site, boom), dask.config.set(scheduler="synchronous"):
+                r = CliRunner().invoke(cli, ["run", toml, "-o", out, "-w", *extra])
+            case = {"command": "nuspacesim run c.toml -o out.fits -w " + " ".join(extra), "failing_stage": site[0], "boundaries_completed_before": site[5]}
+            ctx.case(("cli-fault", site[0], tuple(extra)), None)
+            ctx.count("cli_fault_runs")
+            if not isinstance(r.exception, InjectedFault):
+                ctx.violation("nuspacesim run", "fault-not-propagated", f"a failure injected in stage {site[0]} did not come out of the command ({r.exception!r})", case)
+                continue
+            if not os.path.exists(out):
+                ctx.violation("nuspacesim run", "leftover-missing:after-raise", f"after a failure in stage {site[0]} (with {site[5]} stage boundaries completed) nothing is left at the output path", case)
+                continue
+            try:
+                t = Table.read(out, format="fits")
+                if len(t.colnames) == 0:
+                    ctx.violation("nuspacesim run", "leftover-not-the-prefix:after-raise", "the file left after the failure has no columns", case)
+            except Exception as ex:  # noqa
+                ctx.violation("nuspacesim run", "leftover-unreadable:after-raise", f"the file left after the failure is not a readable FITS table: {type(ex).__name__}", case)
+
+
 def model_selftests(ctx):
     """the model on hand-made operation lists (duplicate column name, meta overwrite)"""
     o = run_driver(["c17.run 1 - SIMTIME=i Ca=1,b=2 Mk=3 Ca=9 Cc=4"])[0]
@@ -547,8 +596,9 @@ def run(ctx: Ctx):
     model_selftests(ctx)
     specs = [
         {"mode": "Diffuse", "optical": True, "radio": True, "spectrum": "mono"},
-        {"mode": "Diffuse", "optical": True, "radio": False, "spectrum": "power"},
-        {"mode": "Diffuse", "optical": False, "radio": True, "spectrum": "mono", "cloud": 3.0},
+        # (the staged file is a FITS table whatever the output file is called)
+        {"mode": "Diffuse", "optical": True, "radio": False, "spectrum": "power", "outname": "run_0007.ecsv"},
+        {"mode": "Diffuse", "optical": False, "radio": True, "spectrum": "mono", "cloud": 3.0, "outname": "E18.5.dat"},
         {"mode": "Target", "optical": True, "radio": True, "spectrum": "mono"},
     ]
     if ctx.thorough:
@@ -578,6 +628,7 @@ def run(ctx: Ctx):
         if i in (0, 3) or ctx.thorough:
             writes_off(ctx, spec, wd)
     zero_survivor_runs(ctx, work)
+    cli_fault_runs(ctx, work)
     os.chdir(str(VERIF))
     shutil.rmtree(work, ignore_errors=True)
 
@@ -609,7 +660,7 @@ def zero_survivor_runs(ctx, work):
                               {**case, "table_columns": want_cols})
                 continue
             try:
-                f = Table.read(path)
+                f = Table.read(path, format="fits")
             except Exception as e:  # noqa
                 ctx.violation("StagedWriter", "zero-survivors-unreadable", f"file is not a readable FITS table: {type(e).__name__}", case)
                 continue
